@@ -112,7 +112,36 @@ func (w *World) AddBlockEvents() {
 
 // AddVote adds a vote event.
 func (w *World) AddVote(val, src, tgt int) {
-	w.Events = append(w.Events, Event{Kind: EvVote, Val: val, Src: src, Tgt: tgt, Name: fmt.Sprintf("V%d:%s>%s", val, w.Names[src], w.Names[tgt])})
+	w.Events = append(w.Events, Event{Kind: EvVote, Val: val, Src: src, Tgt: tgt, Name: fmt.Sprintf("V%d:%s>%s", val, w.NameOf(src), w.NameOf(tgt))})
+}
+
+// Genesis is the pseudo block index of the genesis block in worlds rooted at a prelude tip
+// (usable as vote source: genesis is the only checkpoint that is justified from the start).
+const Genesis = -1
+
+// Foreign is returned by Index for a hash that is no block of the world.
+const Foreign = -2
+
+// HeightOf / HashOf / NameOf accept Genesis.
+func (w *World) HeightOf(i int) uint64 {
+	if i == Genesis {
+		return 0
+	}
+	return w.Blocks[i].Height
+}
+
+func (w *World) HashOf(i int) bc.Hash {
+	if i == Genesis {
+		return w.Net.Gen.Hash()
+	}
+	return w.Blocks[i].Hash()
+}
+
+func (w *World) NameOf(i int) string {
+	if i == Genesis {
+		return "genesis"
+	}
+	return w.Names[i]
 }
 
 // Describe renders a history.
@@ -126,6 +155,9 @@ func (w *World) Describe(h []int) []string {
 
 // IsAncestor reports whether block a is an ancestor-or-self of block b.
 func (w *World) IsAncestor(a, b int) bool {
+	if a == Genesis {
+		return true
+	}
 	for x := b; x >= 0; x = w.Parent[x] {
 		if x == a {
 			return true
@@ -178,7 +210,7 @@ func withWatchdog(f func()) (returned bool) {
 // VoteMsg builds the message of a vote event.
 func (w *World) VoteMsg(e Event) *casper.ValidCasperSignMsg {
 	key := w.Net.Keys[e.Val]
-	m := labnet.VoteMsg(key, w.Blocks[e.Src].Hash(), w.Blocks[e.Tgt].Hash())
+	m := labnet.VoteMsg(key, w.HashOf(e.Src), w.Blocks[e.Tgt].Hash())
 	if e.BadSig {
 		m.Signature = append([]byte(nil), m.Signature...)
 		m.Signature[5] ^= 0x40
@@ -193,7 +225,7 @@ func (w *World) BlockWithLinks(e Event) *types.Block {
 	cp.SupLinks = nil
 	for _, s := range e.Signers {
 		key := w.Net.Keys[s]
-		sig := labnet.VoteSig(key, w.Blocks[e.Src].Hash(), w.Blocks[e.Block].Hash())
+		sig := labnet.VoteSig(key, w.HashOf(e.Src), w.Blocks[e.Block].Hash())
 		if e.BadSig {
 			sig = append([]byte(nil), sig...)
 			sig[5] ^= 0x40
@@ -205,7 +237,7 @@ func (w *World) BlockWithLinks(e Event) *types.Block {
 		if order < 0 {
 			order = 0
 		}
-		cp.SupLinks.AddSupLink(w.Blocks[e.Src].Height, w.Blocks[e.Src].Hash(), sig, order)
+		cp.SupLinks.AddSupLink(w.HeightOf(e.Src), w.HashOf(e.Src), sig, order)
 	}
 	return &cp
 }
@@ -364,12 +396,15 @@ func (w *World) Name(h bc.Hash) string {
 
 // Index of a block hash (-1 if foreign).
 func (w *World) Index(h bc.Hash) int {
+	if w.Base != nil && h == w.Net.Gen.Hash() {
+		return Genesis
+	}
 	for i, b := range w.Blocks {
 		if b.Hash() == h {
 			return i
 		}
 	}
-	return -1
+	return Foreign
 }
 
 // Digest is a canonical digest of the implementation's state: whole store, checkpoint tree,
